@@ -125,7 +125,6 @@ func (c *ConfigManager) ReloadFromRaw(data []byte) (err error) {
 	// neither of them sees the password inside a url (remote url, proxy url), so hash the urls too
 	urls := []string{}
 	collectURLs(reflect.ValueOf(info.Config), &urls, 0)
-	sort.Strings(urls)
 	hash, err := hashstructure.Hash(struct {
 		Config *config.Config
 		Text   string
@@ -148,7 +147,7 @@ func (c *ConfigManager) ReloadFromRaw(data []byte) (err error) {
 	return nil
 }
 
-// collectURLs append every url found in the exported fields of v, with user and password
+// collectURLs append every url found in the exported fields of v, with user and password, in the order of the config
 func collectURLs(v reflect.Value, urls *[]string, depth int) {
 	if depth > 32 {
 		return
@@ -174,7 +173,11 @@ func collectURLs(v reflect.Value, urls *[]string, depth int) {
 			collectURLs(v.Index(i), urls, depth+1)
 		}
 	case reflect.Map:
-		for _, k := range v.MapKeys() {
+		// in the order of the keys: the list must be the same for the same config, and two urls
+		// that exchange their passwords must not give the same list
+		keys := v.MapKeys()
+		sort.Slice(keys, func(i, j int) bool { return fmt.Sprint(keys[i].Interface()) < fmt.Sprint(keys[j].Interface()) })
+		for _, k := range keys {
 			collectURLs(v.MapIndex(k), urls, depth+1)
 		}
 	}
